@@ -22,25 +22,30 @@ package disk
 //@ ghost var fino map[int]Int
 //@ ghost var held_w map[Int]bool
 //@ ghost var held_r map[Int]bool
+// didunlock: this operation has already released the lock once; Lock/RLock require that it has
+// not: every operation is ONE critical section.
+//@ ghost var didunlock map[Int]bool scratch
 
 // ---- assumed contracts (trusted; POSIX as documented, each call atomic, one owner of the file) ----
 
 //@ assume func (*sync.RWMutex).Lock (rw)
 //@   requires !held_w[ref(rw)] && !held_r[ref(rw)]
+//@   requires [one critical section per operation] !didunlock[ref(rw)]
 //@   modifies held_w
 //@   ensures held_w == old(held_w)[ref(rw) := true]
 //@ assume func (*sync.RWMutex).Unlock (rw)
 //@   requires held_w[ref(rw)]
-//@   modifies held_w
-//@   ensures held_w == old(held_w)[ref(rw) := false]
+//@   modifies held_w, didunlock
+//@   ensures held_w == old(held_w)[ref(rw) := false] && didunlock == old(didunlock)[ref(rw) := true]
 //@ assume func (*sync.RWMutex).RLock (rw)
 //@   requires !held_w[ref(rw)] && !held_r[ref(rw)]
+//@   requires [one critical section per operation] !didunlock[ref(rw)]
 //@   modifies held_r
 //@   ensures held_r == old(held_r)[ref(rw) := true]
 //@ assume func (*sync.RWMutex).RUnlock (rw)
 //@   requires held_r[ref(rw)]
-//@   modifies held_r
-//@   ensures held_r == old(held_r)[ref(rw) := false]
+//@   modifies held_r, didunlock
+//@   ensures held_r == old(held_r)[ref(rw) := false] && didunlock == old(didunlock)[ref(rw) := true]
 
 //@ assume func golang.org/x/sys/unix.Open (path, mode, perm)
 //@   modifies kdent, kreg, kdata, ksize, kddata, kdsize, fopen, fino
@@ -104,7 +109,7 @@ package disk
 //@   requires forall r Int :: r >= brk ==> !held_w[r] && !held_r[r]
 
 //@ func (MemDisk).ReadTo
-//@   requires d.l != nil && !held_w[ref(d.l)] && !held_r[ref(d.l)]
+//@   requires d.l != nil && !held_w[ref(d.l)] && !held_r[ref(d.l)] && !didunlock[ref(d.l)]
 //@   requires [caller memory is not disk storage] buf.arr != d.blocks.arr
 //@   requires len(buf) == 4096
 //@   lock d.l
@@ -113,19 +118,19 @@ package disk
 //@   on_panic [nothing changed, lock released] unchanged()
 //@   ensures [buffer holds the block] forall i uint64 :: i < 4096 ==> buf[i] == old(at(d.blocks, a, i))
 //@   ensures [lock released] held_w == old(held_w) && held_r == old(held_r)
-//@   modifies buf, held_r
+//@   modifies buf, held_r, didunlock
 
 //@ func (MemDisk).Read
-//@   requires d.l != nil && !held_w[ref(d.l)] && !held_r[ref(d.l)]
+//@   requires d.l != nil && !held_w[ref(d.l)] && !held_r[ref(d.l)] && !didunlock[ref(d.l)]
 //@   panics_iff [out-of-range address refused] a >= uint64(len(d.blocks))
 //@   on_panic [nothing changed] unchanged()
 //@   ensures [one fresh block] len(result) == 4096 && fresh(result)
 //@   ensures [holds the block] forall i uint64 :: i < 4096 ==> result[i] == old(at(d.blocks, a, i))
 //@   ensures [lock released] held_w == old(held_w) && held_r == old(held_r)
-//@   modifies held_r
+//@   modifies held_r, didunlock
 
 //@ func (MemDisk).Write
-//@   requires d.l != nil && !held_w[ref(d.l)] && !held_r[ref(d.l)]
+//@   requires d.l != nil && !held_w[ref(d.l)] && !held_r[ref(d.l)] && !didunlock[ref(d.l)]
 //@   requires [caller memory is not disk storage] v.arr != d.blocks.arr
 //@   lock d.l
 //@   unguarded v
@@ -133,7 +138,7 @@ package disk
 //@   on_panic [nothing changed, lock released] unchanged()
 //@   ensures [block a holds v, every other block untouched] forall b uint64, i uint64 :: b < uint64(len(d.blocks)) && i < 4096 ==> at(d.blocks, b, i) == (b == a ? v[i] : old(at(d.blocks, b, i)))
 //@   ensures [lock released] held_w == old(held_w) && held_r == old(held_r)
-//@   modifies elems(d.blocks), held_w
+//@   modifies elems(d.blocks), held_w, didunlock
 
 //@ func (MemDisk).Size
 //@   lock d.l
